@@ -30,7 +30,7 @@ from lv import core, model, gen, ref, canon, drive
 from lv.props import common
 
 ID = 'C17'
-BUDGET = {'quick': 16 * 14, 'thorough': 16 * 220}        # state machines (histories)
+BUDGET = {'quick': 16 * 24, 'thorough': 16 * 260}        # state machines (histories)
 WALL = {'quick': 900, 'thorough': 5400}
 RULE = ('one case = one history: a fresh SQLite database file attached with '
         '@AttachDatabase (alias logica_home; alias logica_test = the default SQLite dataset '
@@ -74,6 +74,10 @@ ASSUMPTIONS = [
     'predicate, ExecuteLogicaProgram with a fresh connection',
     'composite values compared up to SQLite JSON text encoding (lv/canon.py)',
     'table names compared case-insensitively (SQLite identifiers)',
+    'a run whose script does not materialise a syntactic grounded dependency is skipped '
+    '(counted) when, by the reference evaluator, emptying and doubling that relation '
+    'changes neither the requested predicates nor the other tables the run writes (dead '
+    'code the compiler eliminates); otherwise the missing table is a failure',
     'overwrite: false, @Ground(P, Q), copy_to_file and grounded predicates without rules '
     'are outside the stated domain and not generated',
     'flags: only "${name}" inside string literals of rules/facts (not in annotations or '
@@ -846,7 +850,7 @@ class Session(object):
             else:
                 raise ValueError('unknown step %r' % (full,))
         except Skip as e:
-            return 'skip', 'excluded:' + str(e)
+            return 'skip', 'excluded_run:' + str(e)
         except (ref.TooBig, ref.Ambiguous):
             return 'inconclusive', 'ref_too_big'
         except drive.DIAGNOSTICS as e:
@@ -946,6 +950,46 @@ class Session(object):
                         if view.exp.get(g) and base.exp.get(g)):
                     self.labels.add('run:user_flag_value_changes_written_table')
 
+    SYNTH = {'N': 1, 'S': 'a', 'LN': [1], 'LS': ['a'], 'R': {'a': 1, 'b': 'a'}}
+
+    def cannot_influence(self, view, preds, g, others):
+        """The contents of the table of g cannot matter to this run: with the relation
+        of g emptied and with it doubled (one invented row when it is empty) the
+        requested predicates and the other tables the run writes keep their value."""
+        v = view.v
+        cols, rows = view.exp[g]
+        if rows:
+            alts = [[], list(rows) * 2]
+        else:
+            sig = (v.prog.get('sig') or {}).get(g)
+            if not sig:
+                return False
+            types = [t for f, t in sig['fields']] + ([sig['value']] if sig['value'] else [])
+            if len(types) != len(cols) or any(t not in self.SYNTH for t in types):
+                return False
+            alts = [[tuple(self.SYNTH[t] for t in types)]]
+
+        def norm(t):
+            return (list(t[0]), sorted(map(repr, t[1])))
+        for trows in alts:
+            ev2 = ref.Evaluator(view.prog, budget=REF_BUDGET,
+                                overrides={g: row_dicts(view.ev, g, trows)})
+            for q in list(preds) + list(others):
+                if norm(common.expected_rows(ev2, view.prog, q)) != norm(view.exp[q]):
+                    return False
+        return True
+
+    def skip_if_dead_dependency(self, view, preds, gdeps, materialised):
+        """A grounded predicate the requested ones mention only in dead code (the value
+        of an aggregate nobody uses, a column of an inlined predicate nobody reads) is
+        not compiled into the script at all.  Whether the run "depends on" it is then a
+        matter of words: nothing is claimed for such a run."""
+        missing = [g for g in gdeps if g not in materialised]
+        if missing and all(self.cannot_influence(view, preds, g,
+                                                 [q for q in gdeps if q not in missing])
+                           for g in missing):
+            raise Skip('grounded_dependency_without_influence_not_materialised')
+
     def plan_run(self, vi, view, user, pred, probe=None, cli=False):
         v = self.variants[vi]
         prog, _ = drive.compile_rules(v.rules(), pred, flags=user)
@@ -953,6 +997,7 @@ class Session(object):
         # logica.py main, sqlite branch
         statements = [ex.preamble] + list(ex.defines_and_exports) + [ex.main_predicate_sql]
         gdeps = v.gdeps(pred)
+        self.skip_if_dead_dependency(view, [pred], gdeps, ex.table_to_export_map)
         exps, exp_main, tamper_at, labels = None, view.exp[pred], None, set()
         if probe:
             g, how = probe
@@ -1040,6 +1085,9 @@ class Session(object):
             for g in v.gdeps(p):
                 if g not in written:
                     written.append(g)
+        self.skip_if_dead_dependency(view, preds, written,
+                                     set().union(*[set(e.table_to_export_map)
+                                                   for e in exs]))
 
         def execute():
             self.labels.add('step:run_many')
@@ -1361,6 +1409,8 @@ class Hist(object):
         status, info = in_fresh_thread(s.step, st_)
         if status == 'inconclusive':
             self.col.inconc(info)
+        elif status == 'skip' and str(info).startswith('excluded_run:'):
+            self.col.exclude(info[len('excluded_run:'):])
         elif status == 'fail':
             case = {'variants': self.variants, 'steps': list(s.steps_done)}
             if st_ not in case['steps'][-1:]:
